@@ -116,7 +116,8 @@ class C09(Property):
         "probe.tail-undecodable", "probe.tail-long-run",
         "probe.non-seekable", "probe.pre-advanced", "probe.oserror-injected",
         "probe.short-reads", "probe.non-ascii-label", "probe.dump-text-stream",
-        "probe.dump-binary-stream", "probe.dump-path", "probe.dump-enospc"]
+        "probe.dump-binary-stream", "probe.dump-path", "probe.dump-enospc",
+        "probe.real-file-object"]
 
     # ---- one load through one entry point
     def load_entry(self, case, entry, knobs, st):
@@ -142,6 +143,25 @@ class C09(Property):
             else:
                 fn = lambda: pvl.loadu("file://" + p, **kw)
             return core.guarded(fn, nchars), None
+        if entry in ("text-stream", "binary-stream") and knobs.get(
+                "realfile"):
+            # a real file object from open(), as most callers have
+            p = iosim.SCRATCH.put(header.encode() + data)
+            if entry == "text-stream":
+                f = open(p, "r", encoding="utf-8",
+                         newline=knobs.get("newline"))
+            else:
+                f = open(p, "rb", buffering=knobs.get("buffer", -1) or 0)
+            try:
+                left = len(header)
+                while left > 0:
+                    got = f.read(left)
+                    if not got:
+                        break
+                    left -= len(got)
+                return core.guarded(lambda: pvl.load(f, **kw), nchars), None
+            finally:
+                f.close()
         if entry in ("text-stream", "binary-stream"):
             full = header.encode() + data
             fa = knobs.get("fail_at")
@@ -386,7 +406,30 @@ class C09(Property):
         rng.shuffle(order)
         for entry in order:
             knobs = {}
-            if entry in ("text-stream", "binary-stream"):
+            if entry in ("text-stream", "binary-stream") and \
+                    rng.random() < 0.2:
+                knobs["realfile"] = True
+                out.inc("probe.real-file-object")
+                if entry == "text-stream" and rng.random() < 0.3:
+                    knobs["newline"] = rng.choice(["", "\n"])
+                if entry == "binary-stream" and rng.random() < 0.5:
+                    knobs["buffer"] = rng.choice([0, 16, 8192])
+                decodable = True
+                try:
+                    data.decode()
+                except UnicodeDecodeError:
+                    decodable = False
+                if rng.random() < 0.2 and (entry == "binary-stream" or
+                                           decodable):
+                    case_h = dict(case, header="HDR %d bytes\n" %
+                                  rng.randrange(10 ** 6))
+                    out.inc("probe.pre-advanced")
+                else:
+                    case_h = case
+                out.nontrivial = True
+                out.violations.extend(
+                    self.check_load(case_h, entry, knobs, out))
+            elif entry in ("text-stream", "binary-stream"):
                 if rng.random() < 0.7:
                     knobs["buffer"] = rng.choice([1, 2, 3, 7, 64, 8192] + (
                         [0] if entry == "binary-stream" else []))
